@@ -44,6 +44,16 @@ OPTS = {'o0': {}, 'keep': {'keep_all_tokens': True}, 'noph': {'maybe_placeholder
 INPUTS = list(util.strings('abc', 3))
 
 
+def _edit_c(t):
+    """edit_terminals callback: the terminal C matches "ca" instead of "c"."""
+    if t.name == 'C':
+        t.pattern.value = 'ca'
+
+
+# a callback option: it is not part of the cache key, and such parsers are documented (since 0896624) to bypass the cache
+OPTS['edit'] = {'edit_terminals': _edit_c}
+
+
 class Env:
     """Scratch directories: d1 (earlier on the import path, normally empty), d2 (holds m.lark), cache file path."""
 
@@ -171,7 +181,9 @@ def judge(env, g, o, res, case, section):
     if r2[0] != 'ok':
         bad('file-invalid-afterwards', 'second construction returns', repr(r2)[:200])
         return False
-    if lc.n != 0:
+    if lc.n != 0 and 'edit_terminals' in OPTS[o]:
+        res['counters']['edit_terminals: cache bypassed (file neither read nor written), equal to the uncached build'] += 1
+    elif lc.n != 0:
         bad('file-not-replaced-by-a-valid-one', 'the next construction loads from the cache (load_grammar not called)', 'load_grammar called %d times' % lc.n)
         return False
     if behaviour(r2[1]) != want:
@@ -238,7 +250,7 @@ def run_faults(g, o, Bb64, kind, lo, hi, masks, res, only=None):
 
 def events(tier):
     ev = [('build', g, o) for g, o in (('imp', 'o0'), ('imp', 'keep'), ('imp', 'noph'), ('plain', 'o0'), ('plain', 'keep'), ('plain', 'noph'),
-                                      ('plain', 'prio-none'), ('other', 'o0'), ('plain-cmt', 'keep'), ('plain-cmt-kw', 'o0'), ('imp', 'start-y'))]
+                                      ('plain', 'prio-none'), ('other', 'o0'), ('plain-cmt', 'keep'), ('plain-cmt-kw', 'o0'), ('imp', 'start-y'), ('plain', 'edit'))]
     ev += [('build', 'imp2', 'o0'), ('build', 'pkg', 'o0'), ('edit-n', 1), ('edit-pkg', 1)]
     ev += [('edit', 1), ('edit', 2), ('edit', 0), ('shadow', True), ('version', '9.9.9'), ('pyversion', (2, 7)), ('truncate',), ('garbage',)]
     return ev
